@@ -203,42 +203,48 @@ def check_own_times(t, fields, resampled, n_resampled):
     return out
 
 
-def midpoints(t):
-    """Strict midpoints of distinct neighbouring recorded times: (left index, time)."""
+def interior_times(t, frac=0.5):
+    """One time strictly inside EVERY segment whose end points carry different time stamps, at the
+    given fraction of the segment: (index i of the segment's first point, time).  A time stamp recorded
+    twice (phase hand-over: points i and i+1 with t[i] == t[i+1]) closes the segment (i-1, i) and opens
+    the segment (i+1, i+2); an interior time belongs to exactly one segment of consecutive points."""
     idx, tm = [], []
     for i in range(len(t) - 1):
         a, b = float(t[i]), float(t[i + 1])
         if b > a:
-            x = a + (b - a) / 2.0
+            x = a + (b - a) * frac
             if a < x < b:
                 idx.append(i)
                 tm.append(x)
     return np.asarray(idx, int), np.asarray(tm, float)
 
 
+def midpoints(t):
+    return interior_times(t, 0.5)
+
+
 def check_midpoints(t, fields, idx, tm, resampled, n_resampled):
+    """At a time strictly inside segment (i, i+1) every per-point field is the linear interpolation of
+    the values recorded at points i and i+1 -- also next to a duplicated time stamp, where the fields that
+    jump at the hand-over (rate of climb, fuel flow, ground speed, heading...) must come from the copy
+    that bounds *this* segment, not from the other copy carrying the same time."""
     out = []
-    lo, hi = own_times_reference(t, None)
     if n_resampled != len(tm):
         return [('resample-mid', None, f'resampling at {len(tm)} times returned {n_resampled} points')]
+    t = np.asarray(t, float)
+    a, b = t[idx], t[idx + 1]
+    w = (tm - a) / (b - a)
     for name in POINT_FIELDS:
-        v, r = fields[name], resampled[name]
+        v, r = np.asarray(fields[name], float), np.asarray(resampled[name], float)
         if len(r) != len(tm):
             out.append(('resample-mid', None, f'{name}: {len(r)} values for {len(tm)} times'))
             continue
-        for k, (i, x) in enumerate(zip(idx, tm)):
-            a, b = float(t[i]), float(t[i + 1])
-            va, vb = float(v[i]), float(v[i + 1])
-            w = (x - a) / (b - a)
-            exp = va + (vb - va) * w
-            ok = _close(float(r[k]), exp, max(abs(va), abs(vb)))
-            if not ok and (lo[i] != hi[i] or lo[i + 1] != hi[i + 1]):
-                # a neighbour recorded twice (same time stamp): either recorded value may be the node
-                for ca in v[lo[i] : hi[i] + 1]:
-                    for cb in v[lo[i + 1] : hi[i + 1] + 1]:
-                        e2 = float(ca) + (float(cb) - float(ca)) * w
-                        ok = ok or _close(float(r[k]), e2, max(abs(float(ca)), abs(float(cb))))
-            if not ok:
-                out.append(('resample-mid', int(i), f'{name} at t={_fmt(x)} s (between points {i} and {i + 1}) is {_fmt(r[k])}, linear interpolation of {_fmt(va)} and {_fmt(vb)} gives {_fmt(exp)}', name))  # fmt: skip
-                break
+        va, vb = v[idx], v[idx + 1]
+        exp = va + (vb - va) * w
+        tol = RESAMPLE_RTOL * np.maximum(np.abs(va), np.abs(vb)) + 1e-300
+        bad = np.flatnonzero(~(np.abs(r - exp) <= tol))
+        if bad.size:
+            k = int(bad[0])
+            i = int(idx[k])
+            out.append(('resample-mid', i, f'{name} at t={_fmt(tm[k])} s (between points {i} and {i + 1}) is {_fmt(r[k])}, linear interpolation of {_fmt(va[k])} and {_fmt(vb[k])} gives {_fmt(exp[k])} ({bad.size} of {len(tm)} segments wrong)', name))  # fmt: skip
     return out
